@@ -249,7 +249,13 @@ impl GetCase {
 }
 
 const DL_SUFFIXES: [&str; 9] = ["_V06", "_V06&x=1", "_<V06>", "_\"q\"'a'", "_é", "_日本", "LONG", "_a b", "_V06.gz"];
+/// collection times near the day / month / year boundary (the request key carries the UTC date)
+const DL_TIMES: [&str; 5] = ["20240813_123330", "20240813_001230", "20240813_232323", "20240101_000500", "20240229_235959"];
+
 fn archive_dl_name(i: usize) -> String {
+    if i >= DL_SUFFIXES.len() {
+        return format!("KDMX{}_V06", DL_TIMES[(i - DL_SUFFIXES.len() + 1) % DL_TIMES.len()]);
+    }
     let suf = DL_SUFFIXES[i % DL_SUFFIXES.len()];
     if suf == "LONG" {
         format!("KDMX20240813_123330_{}", "x".repeat(900))
@@ -271,7 +277,7 @@ fn object_bytes(realtime: bool, size: usize) -> Vec<u8> {
 
 fn check_get(ctx: &Ctx, sim: &Sim, rt: &tokio::runtime::Runtime, c: &GetCase, st: &mut Stats) {
     let name = if c.realtime { RT_NAMES[c.name % RT_NAMES.len()].to_string() } else { archive_dl_name(c.name) };
-    let exp_key = if c.realtime { format!("KDMX/17/{name}") } else { format!("2024/08/13/KDMX/{name}") };
+    let exp_key = if c.realtime { format!("KDMX/17/{name}") } else { format!("{}/{}/{}/KDMX/{name}", &name[4..8], &name[8..10], &name[10..12]) };
     let exp_bucket = if c.realtime { REALTIME_BUCKET } else { ARCHIVE_BUCKET };
     let data = object_bytes(c.realtime, c.size);
     let log = Arc::new(Mutex::new(Served { requests: vec![], parsed: vec![] }));
@@ -465,7 +471,7 @@ pub fn run(ctx: &'static Ctx) -> (&'static str, Value, Vec<&'static str>) {
     let mut gets: Vec<GetCase> = Vec::new();
     let sizes: Vec<usize> = if thorough { vec![0, 1, 6, 4096, 2 << 20] } else { vec![0, 1, 6, 4096] };
     for realtime in [false, true] {
-        for name in 0..if realtime { RT_NAMES.len() } else { DL_SUFFIXES.len() } {
+        for name in 0..if realtime { RT_NAMES.len() } else { DL_SUFFIXES.len() + DL_TIMES.len() - 1 } {
             for &size in &sizes {
                 for &status in &STATUSES {
                     for lm in 0..4 {
